@@ -108,7 +108,7 @@ func newEnvRmCmd(env *envCommand) *cobra.Command {
 				return err
 			}
 
-			newYAML, err := yaml.Marshal(docNode.Content[0])
+			newYAML, err := yaml.Marshal(&docNode)
 			if err != nil {
 				return fmt.Errorf("marshaling definition: %w", err)
 			}
